@@ -244,8 +244,13 @@ func noticesCampaign(r *ev.Run) {
 	}
 	sort.Strings(keys)
 	var idle, heldCases []ntCase
+	addrActions := map[string]bool{}
 	for _, k := range keys {
 		c := cases[k]
+		if c.Field == "client-address" {
+			addrActions[c.Action] = true // one request per action, from a zoned address
+			continue
+		}
 		if c.Action == "refused-duplicate" || c.Action == "refused-wrong-id" {
 			heldCases = append(heldCases, c)
 		} else {
@@ -290,6 +295,15 @@ func noticesCampaign(r *ev.Run) {
 		}(p)
 	}
 	wg.Wait()
+	// the client address as client-supplied text: an IPv6 link-local address carries a "%zone"
+	if len(addrActions) > 0 {
+		fs, n, note := ntClientAddress(fdir, addrActions)
+		all = append(all, fs...)
+		r.Set("client_address_requests", n)
+		if note != "" {
+			r.Set("client_address_note", note)
+		}
+	}
 	sort.Slice(all, func(i, j int) bool { return all[i].key < all[j].key })
 	for _, f := range all {
 		r.Violation(f.key, f.detail)
@@ -304,4 +318,103 @@ func noticesCampaign(r *ev.Run) {
 	r.Rule("TLC enumerates (reporting action, client-controlled field, sequence of format-significant tokens) from Notices.tla; each is sent as a real request (path, query, c2 parameter, c2 header, Host, callback ID on /i and /o, with an attached stream for the refusals) to a real hsrv over TLS and the operator lines it causes are read from the operator channel: no formatter artefact (%!) and the text as sent or as URL-decoded occurs in a notice; non-trivial = cases that reached a handler")
 	r.Assume("the clause about every call site in the tree passing a computed format string is a static property and is not decided here (DESIGN.md section 8)")
 	r.Assume("notices are recognised by arrival after the request on a sequentially driven server, not by their wording")
+}
+
+// ntClientAddress sends requests from an IPv6 link-local address (whose textual form contains
+// "%zone") to a server listening on that address, and checks the notices.
+func ntClientAddress(fdir string, actions map[string]bool) (fs []ntFinding, n int, note string) {
+	var zoned string
+	ifs, _ := net.Interfaces()
+	for _, ifc := range ifs {
+		addrs, _ := ifc.Addrs()
+		for _, a := range addrs {
+			if ipn, ok := a.(*net.IPNet); ok && ipn.IP.To4() == nil && ipn.IP.IsLinkLocalUnicast() {
+				zoned = ipn.IP.String() + "%" + ifc.Name
+			}
+		}
+	}
+	if zoned == "" {
+		return nil, 0, "this host has no IPv6 link-local address; the client-address cases were not run"
+	}
+	s, err := srv.Start(srv.Opts{Fdir: fdir, Addr: "[" + zoned + "]:0"})
+	if err != nil {
+		return nil, 0, "cannot listen on " + zoned + ": " + err.Error()
+	}
+	defer s.Stop()
+	addr := s.Addr
+	if !strings.Contains(addr, "%") {
+		// the announced address may have lost the zone; dial with it
+		if i := strings.LastIndex(addr, "]:"); i > 0 {
+			addr = "[" + zoned + addr[i:]
+		}
+	}
+	check := func(action string, n0 int) {
+		var lines []srv.Line
+		dl := time.Now().Add(3 * time.Second)
+		for time.Now().Before(dl) {
+			lines = s.Lines()[n0:]
+			if len(lines) > 0 {
+				break
+			}
+			time.Sleep(300 * time.Microsecond)
+		}
+		time.Sleep(2 * time.Millisecond)
+		lines = s.Lines()[n0:]
+		var texts []string
+		found, artefact := false, false
+		for _, l := range lines {
+			if l.CL.Plain {
+				continue
+			}
+			texts = append(texts, l.CL.Line)
+			if strings.Contains(l.CL.Line, "%!") {
+				artefact = true
+			}
+			if strings.Contains(l.CL.Line, zoned) {
+				found = true
+			}
+		}
+		d := map[string]any{"action": action, "field": "client-address", "client_address": zoned, "notices": texts}
+		switch {
+		case len(lines) == 0:
+			// nothing reported at all: not this property's business
+		case artefact:
+			fs = append(fs, ntFinding{"formatter-artefact:client-address", d})
+		case !found:
+			fs = append(fs, ntFinding{"client-text-altered:client-address", d})
+		}
+	}
+	dial := func() (net.Conn, error) {
+		return tls.DialWithDialer(&net.Dialer{Timeout: 3 * time.Second}, "tcp", addr, &tls.Config{InsecureSkipVerify: true})
+	}
+	if actions["file-requested"] {
+		n++
+		n0 := s.NLines()
+		if c, err := dial(); err == nil {
+			fmt.Fprintf(c, "GET /f/x HTTP/1.1\r\nHost: h\r\nConnection: close\r\n\r\n")
+			check("file-requested", n0)
+			c.Close()
+		} else {
+			return fs, n, "cannot connect from " + zoned + ": " + err.Error()
+		}
+	}
+	if actions["sent-script"] {
+		n++
+		n0 := s.NLines()
+		if c, err := dial(); err == nil {
+			fmt.Fprintf(c, "GET /c?c2=cb.example HTTP/1.1\r\nHost: h\r\nConnection: close\r\n\r\n")
+			check("sent-script", n0)
+			c.Close()
+		}
+	}
+	if actions["input-connected"] {
+		n++
+		n0 := s.NLines()
+		if c, err := dial(); err == nil {
+			fmt.Fprintf(c, "GET /i/zoned-client HTTP/1.1\r\nHost: h\r\n\r\n")
+			check("input-connected", n0)
+			c.Close()
+		}
+	}
+	return fs, n, ""
 }
